@@ -245,5 +245,83 @@ pub fn run(ctx: &mut Ctx) {
         });
         check(ctx, "reverse proxy h1 with Authorization / Cookie / Proxy-Authorization");
     }
+    // ---- the same over HTTP/3: real QUIC listener (its own log lines included), wall clock ---------------------------
+    {
+        use crate::c02h3::LiveEndpoint;
+        use crate::h3cli::H3Client;
+        use std::io::{Read, Write};
+        use std::time::Duration;
+        let origin_l = std::net::TcpListener::bind("127.0.0.1:0").unwrap();
+        let origin = origin_l.local_addr().unwrap();
+        std::thread::spawn(move || {
+            for s in origin_l.incoming() {
+                let Ok(mut s) = s else { continue };
+                let _ = s.set_read_timeout(Some(Duration::from_secs(1)));
+                let mut buf = [0u8; 4096];
+                let _ = s.read(&mut buf);
+                let _ = s.write_all(b"HTTP/1.1 200 OK\r\nSet-Cookie: x=1\r\nContent-Length: 2\r\n\r\nok");
+            }
+        });
+        let authn3 = authn.clone();
+        if let Some(ep) = LiveEndpoint::start(move |addr| {
+            let b = Settings::builder()
+                .listen_address(addr)
+                .unwrap()
+                .listen_protocols(ListenProtocolSettings {
+                    http1: Some(Http1Settings::builder().build()),
+                    http2: Some(Http2Settings::builder().build()),
+                    quic: Some(QuicSettings::builder().build()),
+                })
+                .speedtest_enable(true)
+                .allow_private_network_connections(true)
+                .clients(vec![trusttunnel::authentication::registry_based::Client { username: "CANARYCONFUSER".into(), password: "CANARYCONFPASS".into() }])
+                .reverse_proxy(ReverseProxySettings::builder().server_address(origin).unwrap().path_mask("/rp".into()).build().unwrap());
+            let hosts = TlsHostsSettings::builder()
+                .main_hosts(vec![TlsHostInfo { hostname: "localhost".into(), cert_chain_path: FIXTURE_PEM.into(), private_key_path: FIXTURE_PEM.into(), allowed_sni: vec![] }])
+                .build()
+                .unwrap();
+            Core::new(b.build().unwrap(), Some(authn3.clone()), hosts, Shutdown::new()).unwrap()
+        }) {
+            for sni_creds in [None, Some("CANARYSNI".to_string()), Some("CANARYBADSNI".to_string())] {
+                let sni = match &sni_creds {
+                    Some(c) => format!("{}.localhost", c),
+                    None => "localhost".to_string(),
+                };
+                for (aname, ahdrs) in &auth_headers {
+                    verif::hooks::reset();
+                    verif::hooks::STATE.lock().unwrap().forwarder = Some(script.clone());
+                    // one connection, all targets as concurrent streams
+                    if let Ok(mut cl) = H3Client::connect(ep.addr, Some(&sni), &[b"h3"], 1 << 20, Duration::from_secs(2)) {
+                        let mut ids = vec![];
+                        for (method, authority) in &targets {
+                            let id = if *method == "CONNECT" {
+                                cl.request("CONNECT", None, authority, None, ahdrs, false)
+                            } else {
+                                cl.request(method, Some("http"), authority, Some("/p"), ahdrs, true)
+                            };
+                            ids.extend(id);
+                        }
+                        // service channels by marker / path on the same connection, secrets in the request
+                        let mut hs = ahdrs.clone();
+                        hs.push(("x-ping".into(), b"1".to_vec()));
+                        ids.extend(cl.request("GET", Some("https"), "localhost", Some("/anything"), &hs, true));
+                        ids.extend(cl.request("GET", Some("https"), "localhost", Some("/speed/bogus"), ahdrs, true));
+                        ids.extend(cl.request("GET", Some("https"), "localhost", Some("/rp/x"), ahdrs, true));
+                        cl.wait(Duration::from_secs(2), |c| ids.iter().all(|i| c.streams.get(i).map(|s| s.status.is_some() || s.reset.is_some() || s.finished).unwrap_or(false)));
+                        cl.close();
+                        cl.wait(Duration::from_millis(30), |_| false);
+                    }
+                    std::thread::sleep(Duration::from_millis(20));
+                    check(ctx, &format!("tunnel h3 (all targets, ping / speedtest / reverse-proxy requests) auth={} sni_creds={:?}", aname, sni_creds));
+                    ctx.stat("h3_canary_connections");
+                }
+            }
+            drop(ep);
+            std::thread::sleep(Duration::from_millis(50));
+            check(ctx, "h3 endpoint shut down");
+        } else {
+            ctx.notes.push("c20: the live HTTP/3 listener did not come up; HTTP/3 scenarios were not run".to_string());
+        }
+    }
     ctx.stat_add("scenarios", scenario_count);
 }
